@@ -20,7 +20,7 @@ from common import MachineryFailure
 CHUNK = 4000
 # proposed repairs (fixes/C07-*.patch) already committed to the tree under test: the transcription (T) follows them.
 # Names: "det", "einsum", "intersect1d", "methods".  P never depends on this.
-TREE_FIXES = ()
+TREE_FIXES = ("det", "einsum", "intersect1d", "methods")  # /repo HEAD carries these repairs (fix: commits 624838b..5b37fc0)
 CASE_KEYS = ("f", "t", "sh", "n", "da", "u", "v", "pat", "rd", "r", "dt", "real", "ds", "cls", "hcls", "sig", "io", "exact", "nocov", "novals", "unord", "od", "tb", "tv")
 
 
